@@ -58,6 +58,8 @@ def run(repo, rep):
     rule_dynamic_operands(repo, rep)
     rule_array_truth(repo, rep)
     rule_absent_vectors(repo, rep)
+    rule_lut_dispatch(repo, rep)
+    rule_reshape_counts(repo, rep)
     rep.clause("C13-h", "the scale derivation never hands the bias / scale packer a shift it asserts against (range guard of quantise_scale == 0 <= shift < 64) [rule shared with C09-a]")
     from . import c09
 
@@ -1381,3 +1383,144 @@ def rule_absent_vectors(repo, rep):
     if n < 1:
         raise AnalysisError("C13-o: no accessor result kept as attribute found")
     rep.floor("C13-o", 1)
+
+
+def rule_lut_dispatch(repo, rep):
+    """(p) convert_ops_to_lut ends in `assert False` for an element type it has no table generator for ("Should already be
+    catched in tflite supported ops"): for every operator type that reaches that dispatch some registered constraint must
+    restrict the IFM element type to the handled ones. (q) the real function a table is generated from is evaluated on
+    (code - zero point) * scale for every code, which is negative for codes below the zero point: library functions with a
+    restricted domain (math.sqrt, math.log) are called only behind a test of that boundary."""
+    from .c16 import registrations
+
+    rep.clause("C13-p", "every operator type that reaches the element-type dispatch of convert_ops_to_lut (which asserts on anything but the handled types) has a registered constraint "
+               "admitting only handled IFM element types; table functions with a restricted domain (sqrt, log) guard it (a code below the zero point dequantises to a negative number)")
+    go = repo.mod("tflite_graph_optimiser")
+    f = go.func("convert_ops_to_lut")
+    site = "ethosu/vela/tflite_graph_optimiser.py:convert_ops_to_lut"
+    # operator types that fall through to the dtype dispatch, and the function each uses
+    types, funcs = [], {}
+    for i_ in ast.walk(f):
+        if isinstance(i_, ast.If) and isinstance(i_.test, ast.Compare) and str(norm(i_.test.left)) == "op.type" and isinstance(i_.test.ops[0], ast.Eq):
+            t = str(norm(i_.test.comparators[0]))
+            if any(isinstance(b, ast.Return) for b in i_.body):
+                continue
+            types.append(t)
+            for b in i_.body:
+                if isinstance(b, ast.Assign) and str(norm(b.targets[0])) == "func":
+                    funcs[t] = b.value
+    handled = {str(norm(c.comparators[0])) for c in ast.walk(f) if isinstance(c, ast.Compare) and str(norm(c.left)) == "op.ifm.dtype" and isinstance(c.ops[0], ast.Eq)}
+    fallthrough_asserts = [a for a in ast.walk(f) if isinstance(a, ast.Assert) and isinstance(a.test, ast.Constant) and a.test.value is False]
+    if len(types) < 3 or not handled or len(fallthrough_asserts) != 1:
+        raise AnalysisError(f"convert_ops_to_lut: dispatch not recognised (types {types}, handled {sorted(handled)})")
+    sem, so = repo.mod("tflite_model_semantic"), repo.mod("tflite_supported_operators")
+    _, s_sem, _, _ = registrations(repo, sem, "TFLiteSemantic")
+    _, s_so, _, _ = registrations(repo, so, "TFLiteSupportedOperators")
+    sup = so.class_assigns("TFLiteSupportedOperators").get("supported_op_dtypes")
+    base = {str(norm(x)) for x in ast.walk(sup) if isinstance(x, ast.Attribute) and str(norm(x.value)) == "DataType"} if sup is not None else set()
+    if len(base) < 3:
+        raise AnalysisError("TFLiteSupportedOperators.supported_op_dtypes not recognised")
+
+    def admitted_by(m, cls, cname):
+        """set of IFM dtypes a constraint admits, or None if it does not restrict the IFM element type"""
+        fn = m.functions.get(f"{cls}.{cname}")
+        if fn is None:
+            return None
+        al = {str(norm(s_.targets[0])) for s_ in ast.walk(fn) if isinstance(s_, ast.Assign) and str(norm(s_.value)) == "op.ifm.dtype"} | {"op.ifm.dtype"}
+        adm = set()
+        for c in ast.walk(fn):
+            if isinstance(c, ast.Compare) and str(norm(c.left)) in al and len(c.ops) == 1:
+                if isinstance(c.ops[0], ast.Eq) and str(norm(c.comparators[0])).startswith("DataType."):
+                    adm.add(str(norm(c.comparators[0])))
+                elif isinstance(c.ops[0], ast.In) and isinstance(c.comparators[0], (ast.Tuple, ast.List, ast.Set)) and all(str(norm(e)).startswith("DataType.") for e in c.comparators[0].elts):
+                    adm |= {str(norm(e)) for e in c.comparators[0].elts}
+        return adm or None
+
+    for t in types:
+        opn = t.split(".")[-1]
+        adm = set(base)
+        used = []
+        for m, cls, spec in ((sem, "TFLiteSemantic", s_sem), (so, "TFLiteSupportedOperators", s_so)):
+            for cname in spec.get(opn, []):
+                a = admitted_by(m, cls, cname)
+                if a is not None:
+                    adm &= a
+                    used.append(cname)
+        rep.check(adm <= handled, "C13-p", site, f"{t}: the IFM element types that pass its constraints ({sorted(x.split('.')[-1] for x in adm)}) are all handled by the table dispatch ({sorted(x.split('.')[-1] for x in handled)})",
+                  f"constraints restricting the IFM type of {t}: {used or 'none'} - {sorted(x.split('.')[-1] for x in adm - handled)} reach `assert False` (valid {opn.upper()} model with that element type -> AssertionError traceback)")
+    # (q) domain of the real function
+    RESTRICTED = {"math.sqrt": ("x >= 0", ("<", "<=")), "math.log": ("x > 0", ("<=", "<"))}
+    for t, v in sorted(funcs.items()):
+        txt = str(norm(v))
+        inner = None
+        if isinstance(v, ast.Name):
+            inner = next((d for d in ast.walk(f) if isinstance(d, ast.FunctionDef) and d.name == v.id), None)
+        called = [txt] if txt in RESTRICTED else []
+        if inner is not None:
+            prm = inner.args.args[0].arg
+            # only calls whose argument depends on the table function's parameter (math.sqrt(2 / math.pi) is a constant)
+            called = sorted({call_name(c) for c in ast.walk(inner) if isinstance(c, ast.Call) and call_name(c) in RESTRICTED and any(isinstance(y, ast.Name) and y.id == prm for a_ in c.args for y in ast.walk(a_))})
+        for lib in called:
+            guarded = False
+            if inner is not None:
+                arg = inner.args.args[0].arg
+                for c in ast.walk(inner):
+                    if isinstance(c, ast.Compare) and len(c.ops) == 1 and str(norm(c.left)) == arg and type(c.ops[0]).__name__ in ("Lt", "LtE") and str(norm(c.comparators[0])) in ("0", "0.0"):
+                        guarded = True
+                    if isinstance(c, ast.Call) and call_name(c) == "max" and any(str(norm(a_)) in ("0", "0.0", "sys.float_info.min") for a_ in c.args):
+                        guarded = True
+            rep.check(guarded, "C13-p", site, f"{t}: {lib} (defined for {RESTRICTED[lib][0]}) is called behind a test of the domain boundary",
+                      f"table function `{txt}` reaches {lib} for every code: codes below the input zero point dequantise to negative numbers "
+                      f"(valid int8 {t.split('.')[-1].upper()} with zero point > -128 -> ValueError: math domain error while the table is built)")
+    rep.floor("C13-p", 5)
+
+
+def rule_reshape_counts(repo, rep):
+    """(q) np.array(<list of n values>).reshape(<shape>) raises ValueError unless n equals the product of the shape. Where both are
+    built from the same local names the two element counts are compared as polynomials (an identity that must hold for every
+    value of the names, e.g. every channel count)."""
+    from ..exprnorm import poly
+
+    rep.clause("C13-q", "a constant built by a rewrite as np.array(<list>).reshape(<shape>) has as many list elements as the shape has entries (compared as polynomials in the local names)")
+    n = 0
+    for mname in ("tflite_graph_optimiser", "graph_optimiser_util", "operation_util", "lut", "softmax", "lstm"):
+        m = repo.mod(mname)
+        for q, fn in m.functions.items():
+            sa = {}
+            for st in walk_no_nested(fn):
+                if isinstance(st, ast.Assign) and len(st.targets) == 1 and isinstance(st.targets[0], ast.Name):
+                    sa.setdefault(st.targets[0].id, []).append(st.value)
+            one = {k: v[0] for k, v in sa.items() if len(v) == 1}
+            for c in walk_no_nested(fn):
+                if not (isinstance(c, ast.Call) and isinstance(c.func, ast.Attribute) and c.func.attr == "reshape" and len(c.args) == 1):
+                    continue
+                src = c.func.value
+                if not (isinstance(src, ast.Call) and (call_name(src) or "") in ("np.array", "numpy.array", "np.asarray") and src.args):
+                    continue
+                lst = src.args[0]
+                if isinstance(lst, ast.Name) and lst.id in one:
+                    lst = one[lst.id]
+                shp = c.args[0]
+                if isinstance(shp, ast.Name) and shp.id in one:
+                    shp = one[shp.id]
+                count = None
+                if isinstance(lst, ast.BinOp) and isinstance(lst.op, ast.Mult) and isinstance(lst.left, ast.List) and len(lst.left.elts) == 1:
+                    count = lst.right
+                elif isinstance(lst, ast.BinOp) and isinstance(lst.op, ast.Mult) and isinstance(lst.right, ast.List) and len(lst.right.elts) == 1:
+                    count = lst.left
+                if count is None or not isinstance(shp, (ast.List, ast.Tuple)) or not shp.elts:
+                    continue
+                prod = shp.elts[0]
+                for e in shp.elts[1:]:
+                    prod = ast.BinOp(left=prod, op=ast.Mult(), right=e)
+                try:
+                    a, b = poly(count), poly(prod)
+                except Exception:
+                    continue
+                n += 1
+                rep.check(a == b, "C13-q", f"ethosu/vela/{mname}.py:{q}", f"`{str(norm(c))[:70]}`: {str(norm(count))} values fill the shape {str(norm(shp))}",
+                          f"the list has {str(norm(count))} elements but the shape has {' * '.join(str(norm(e)) for e in shp.elts)} entries: numpy raises 'ValueError: cannot reshape array' "
+                          "whenever the two differ (here: for every channel count other than 1)")
+    if n < 1:
+        raise AnalysisError("no np.array(list).reshape(shape) site with a symbolic element count found")
+    rep.floor("C13-q", 1)
